@@ -90,7 +90,10 @@ def fresh(sd=0):
     C = pd.DataFrame({'_id': [0, 1, 2, 3, 4], 'l_id': [1, 2, 3, 4, 5], 'r_id': ['u', 'u', 'w', 'x', 'v']})
     C2 = pd.DataFrame({'_id': [0, 1, 2], 'l_id': [1, 2, 3], 'r_id': [7, 9, 9]})
     S = pd.Series([1.0, 2.0, np.nan], name='num')
-    return dict(A=A, B=B, A2=A2, B2=B2, C=C, C2=C2, S=S,
+    BN = pd.DataFrame({'id': ['u', 'v'], 's': pd.Series(['zz', mv], dtype=object)})      # nothing matches
+    BM = pd.DataFrame({'id': ['u', 'v'], 's': pd.Series([mv, mv], dtype=object)})        # all missing
+    BE = pd.DataFrame({'id': pd.Series([], dtype=object), 's': pd.Series([], dtype=object)})   # no rows
+    return dict(A=A, B=B, A2=A2, B2=B2, C=C, C2=C2, S=S, BN=BN, BM=BM, BE=BE,
                 ws_set=WhitespaceTokenizer(return_set=True), ws_bag=WhitespaceTokenizer(return_set=False),
                 qg3_set=QgramTokenizer(qval=3, return_set=True), qg2_bag=QgramTokenizer(qval=2, return_set=False))
 
@@ -100,7 +103,7 @@ def tok_fp(t):
 
 
 def state(O):
-    return (tuple((k, frame_fingerprint(O[k])) for k in ('A', 'B', 'A2', 'B2', 'C', 'C2', 'S')),
+    return (tuple((k, frame_fingerprint(O[k])) for k in ('A', 'B', 'A2', 'B2', 'C', 'C2', 'S', 'BN', 'BM', 'BE')),
             tuple((k, tok_fp(O[k])) for k in TOKS),
             tuple(tok_fp(t) for t in default_tokenizers()),
             lib_globals_fingerprint())
@@ -185,6 +188,22 @@ def build_alphabet(reduced=False):
             (lambda tn: lambda O: ssj.apply_matcher(O['C'], 'l_id', 'r_id', O['A'], O['B'], 'id', 'id', 's', 's',
                                                     O[tn], ssj.utils.simfunctions.overlap, 2, allow_missing=True,
                                                     show_progress=False))(tn))
+    # degenerate right tables (no match / all missing / no rows): early-return and empty-result paths
+    if not reduced:
+        for tn in ('ws_bag', 'ws_set'):
+            for bn in ('BN', 'BM', 'BE'):
+                for jn, fn in J.items():
+                    add('%s_join(%s,A,%s,allow_missing)' % (jn, tn, bn),
+                        (lambda fn, tn, bn: lambda O: fn()(O['A'], O[bn], 'id', 'id', 's', 's', O[tn], 0.9,
+                                                           allow_missing=True, n_jobs=2, show_progress=False))(fn, tn, bn))
+                add('overlap_join(%s,A,%s,allow_missing)' % (tn, bn),
+                    (lambda tn, bn: lambda O: ssj.overlap_join(O['A'], O[bn], 'id', 'id', 's', 's', O[tn], 3,
+                                                               allow_missing=True, show_progress=False))(tn, bn))
+        for tn in ('qg3_set', 'qg2_bag'):
+            for bn in ('BN', 'BM', 'BE'):
+                add('edit_distance_join(%s,A,%s,allow_missing)' % (tn, bn),
+                    (lambda tn, bn: lambda O: ssj.edit_distance_join(O['A'], O[bn], 'id', 'id', 's', 's', 0, '<=', True,
+                                                                      tokenizer=O[tn], show_progress=False))(tn, bn))
     # a second pair of tables: state left behind by a call on A/B would show up here
     add('PositionFilter.filter_tables(A2,B2,ws_set)',
         lambda O: ssj.PositionFilter(O['ws_set'], 'JACCARD', 0.3).filter_tables(
